@@ -10,7 +10,7 @@ from core import Run, Violation, Skip, new_entropy
 from stateworld import word_images, inverse_word, rand_word
 
 VALUE_KINDS = ("pauli", "mono", "list", "poly", "map", "state")
-ALL_KINDS = VALUE_KINDS + ("gate", "layer", "circuit")
+ALL_KINDS = VALUE_KINDS + ("gate", "layer", "circuit", "mcirc", "rec")
 
 
 def _npv(a):
@@ -146,6 +146,12 @@ def snap(o, kind):
         return snap_layer(o)
     if kind == "circuit":
         return snap_circuit(o)
+    if kind == "rec":
+        return ("rec", tuple(int(x) for x in o))
+    if kind == "mcirc":
+        # a circuit with measurement layers: its layout and the record it keeps of its last run
+        mr = getattr(o, "measure_result", None)
+        return ("mcirc", repr(o), None if mr is None else tuple(int(x) for x in mr))
     return snap_value(o, kind)
 
 
@@ -387,7 +393,7 @@ class ObjWorld(Run):
     def _p_new(self, rng):
         n = self.n
         kind = rng.choice(["pauli", "pauli", "list", "list", "mono", "poly", "map", "state", "state",
-                           "gate", "gate", "layer", "circuit", "smallmap", "smallpauli"] if not self.torch else
+                           "gate", "gate", "layer", "circuit", "smallmap", "smallpauli", "mcirc", "rec"] if not self.torch else
                           ["pauli", "pauli", "list", "list", "map", "state", "state", "state", "gate", "circuit",
                            "smallmap", "smallpauli"])
         op = {"op": "new", "slot": self.free_name(rng), "kind": kind, "entropy": new_entropy(rng)}
@@ -435,6 +441,25 @@ class ObjWorld(Run):
         elif kind == "circuit":
             op["specs"] = [self._gate_spec(rng, allow_random=False) for _ in range(rng.randrange(0, 6))]
             op["compiled"] = rng.choice(["no", "no", "circuit", "layers"])
+        elif kind == "mcirc":
+            # the Circuit class with measurement layers: a few gates and one to three measurements
+            prog = []
+            for _ in range(rng.randrange(1, 5)):
+                if rng.random() < 0.5:
+                    prog.append({"meas": sorted(rng.sample(range(n), rng.randrange(1, min(n, 2) + 1)))})
+                else:
+                    prog.append({"gate": self._gate_spec(rng, allow_random=False)})
+            if not any("meas" in it for it in prog):
+                prog.append({"meas": [rng.randrange(n)]})
+            op["prog"] = prog
+        elif kind == "rec":
+            # an outcome record (+1/-1 list) owned by the caller, as handed to Circuit.backward
+            ms = self.by_kind("mcirc")
+            want = None
+            if ms:
+                want = getattr(self.slots[rng.choice(ms)].obj, "num_of_measures", None)
+            L = want if isinstance(want, int) and 0 < want < 9 and rng.random() < 0.8 else rng.randrange(1, 4)
+            op["values"] = [rng.choice((1, -1)) for _ in range(L)]
         return op
 
     def _gate_spec(self, rng, allow_random=True):
@@ -481,7 +506,7 @@ class ObjWorld(Run):
         return rng.choice(names)
 
     def _p_copy(self, rng):
-        names = sorted(self.slots)
+        names = [x for x in sorted(self.slots) if self.slots[x].kind not in ("mcirc", "rec")]
         if not names:
             return None
         return {"op": "copy", "src": self._biased_pick(rng, names), "slot": self.free_name(rng)}
@@ -509,6 +534,8 @@ class ObjWorld(Run):
         "gate": ["repr", "independent_from"],
         "layer": ["repr"],
         "circuit": ["repr", "povm"],
+        "mcirc": ["repr"],
+        "rec": ["repr", "len"],
     }
 
     def _p_query(self, rng):
@@ -552,7 +579,7 @@ class ObjWorld(Run):
         which = rng.choice(["rotate", "rotate", "transform", "transform", "measure", "measure", "postselect",
                             "embed", "gate_apply", "gate_apply", "layer_apply", "circuit_apply",
                             "compile", "take", "take", "take", "compose", "compose", "set_map", "set_r",
-                            "pick_layer", "layer_take"])
+                            "pick_layer", "layer_take", "mc_forward", "mc_forward", "mc_backward", "mc_backward"])
         op = {"op": "inplace", "which": which, "entropy": new_entropy(rng)}
         vals = self.by_kind("pauli", "list", "poly", "map", "state", "mono", N=n)
         if which == "rotate":
@@ -633,6 +660,18 @@ class ObjWorld(Run):
             # after the call is what exposes structure shared between two circuits
             op["recv"] = self._biased_pick(rng, cs)
             op["arg"] = self._biased_pick(rng, gs)
+            return op
+        if which in ("mc_forward", "mc_backward"):
+            ms = self.by_kind("mcirc")
+            sts = self.by_kind("state", N=n)
+            if not ms or not sts:
+                return None
+            op["unit"] = self._biased_pick(rng, ms)
+            op["recv"] = self._biased_pick(rng, sts)
+            if which == "mc_backward":
+                rs = self.by_kind("rec")
+                if rs and rng.random() < 0.8:
+                    op["arg"] = self._biased_pick(rng, rs)
             return op
         if which == "pick_layer":
             # a layer object handed out by a circuit (layers_forward / layers_backward): it IS part
@@ -772,6 +811,21 @@ class ObjWorld(Run):
                 o = pc.CliffordLayer(*gates)
                 if op.get("compiled") and all(s["kind"] != "random" for s in op["specs"]):
                     o.compile(n)
+            elif kind == "rec":
+                o = [int(x) for x in op["values"]]
+            elif kind == "mcirc":
+                if self.torch:
+                    raise Skip()
+                o = pc.Circuit(n)
+                for it in op["prog"]:
+                    if "meas" in it:
+                        if max(it["meas"]) >= n:
+                            raise Skip()
+                        o.measure(*it["meas"])
+                    else:
+                        if it["gate"]["kind"] == "random":
+                            raise Skip()
+                        o.take(self.build_gate(it["gate"]))
             elif kind == "circuit":
                 o = pc.identity_circuit(n)
                 for s in op["specs"]:
@@ -797,6 +851,8 @@ class ObjWorld(Run):
         if op["src"] not in self.slots:
             raise Skip()
         s = self.slots[op["src"]]
+        if s.kind in ("mcirc", "rec"):
+            raise Skip()
         pre = self.snapshot_all()
         try:
             cp = s.obj.copy()
@@ -835,6 +891,13 @@ class ObjWorld(Run):
         elif s.kind == "state" and h % 5 == 0:
             s.obj.r = (int(s.obj.r) + 1) % (self.n + 1)
             done = "r"
+        elif s.kind == "rec":
+            # the caller goes on using its own list
+            if s.obj and h % 2 == 0:
+                s.obj[(h >> 4) % len(s.obj)] *= -1
+            else:
+                s.obj.append(1 if (h >> 3) % 2 else -1)
+            done = "list"
         elif arrs:
             a = arrs[h % len(arrs)]
             if not a.flags.writeable:
@@ -1104,6 +1167,21 @@ class ObjWorld(Run):
                     raise Skip()
                 recv.obj.compose(arg.obj)
                 extend_from.append(arg)
+            elif which in ("mc_forward", "mc_backward"):
+                if unit is None or unit.kind != "mcirc" or recv.kind != "state" or _sN(recv.obj) != n \
+                        or not _valid_r(recv.obj, n) or self.torch:
+                    raise Skip()
+                if arg is not None and arg.kind != "rec":
+                    raise Skip()
+                # the circuit keeps a record of its own runs: it is written too; a record handed
+                # in by the caller stays the caller's
+                writes = {op["recv"], op["unit"]}
+                if which == "mc_forward":
+                    unit.obj.forward(recv.obj)
+                elif arg is not None:
+                    unit.obj.backward(recv.obj, arg.obj)
+                else:
+                    unit.obj.backward(recv.obj)
             elif which == "pick_layer":
                 if recv.kind != "circuit" or self.torch:
                     raise Skip()
